@@ -572,7 +572,9 @@ func runC18(res *hx.Result, rng *hx.Rng, tier string, outdir string) {
 	unsafe := func(known, desc string, objs ...oObject) {
 		cases = append(cases, rtCase{pkg: "p", objs: objs, known: known, desc: desc, nontr: true})
 	}
-	obj1 := func(ms []oMethod, ss, ps []oSignal) oObject { return oObject{Name: "I", Methods: ms, Signals: ss, Props: ps} }
+	obj1 := func(ms []oMethod, ss, ps []oSignal) oObject {
+		return oObject{Name: "I", Methods: ms, Signals: ss, Props: ps}
+	}
 	for _, n := range []string{"strange", "int8x", "boolean", "anything", "object", "unknownThing", "float32s", "uint64_t"} {
 		unsafe("keyword_prefix_struct_name", "struct named "+n, obj1([]oMethod{{Uid: 1, Name: "f", Params: "((i)<" + n + ",a>)", Ret: "v"}}, nil, nil))
 	}
